@@ -24,7 +24,8 @@ def gen_plan(seed, index, tier="quick"):
     r = scenario.rng_for(seed, PROP, index)
     user = "".join(r.choice(ALPH) for _ in range(r.randint(1, 10)))
     password = "".join(r.choice(ALPH + "pw!?") for _ in range(r.randint(1, 16)))
-    behaviour = r.choice(["honest", "honest", "wrong_password", "tamper", "tamper", "impostor"])
+    behaviour = r.choice(["honest", "honest", "wrong_password", "tamper", "tamper", "impostor",
+                          "replay", "rotate_honest", "rotate_stale"])
     it = r.choice([1, 2, 10, 100, 4096, 4096, r.randint(1, 20000)])
     return {
         "format": 1, "prop": PROP, "engine": "scram", "seed": scenario.subseed(seed, PROP, index),
@@ -84,8 +85,59 @@ def execute(plan):
         conn.close()
         await asyncio.sleep(0.01)
 
-    res = scenario.run(plan, world, main)
+    async def login(password):
+        try:
+            conn = await create_conn(broker.host, broker.port, client_id="c18",
+                                     request_timeout_ms=2000, security_protocol="SASL_PLAINTEXT",
+                                     sasl_mechanism=plan["mechanism"],
+                                     sasl_plain_username=plan["user"],
+                                     sasl_plain_password=password)
+        except Exception as exc:  # noqa: BLE001
+            return ("raised", type(exc).__name__, str(exc)[:200])
+        conn.close()
+        await asyncio.sleep(0.01)
+        return ("connected",)
+
+    async def main_sequence():
+        # two logins in one process: state kept between authenticators must not help a peer
+        # that does not know the password
+        L.OWNER.set("c18")
+        first = await login(plan["password"])
+        out["first"] = first
+        if plan["behaviour"] == "replay":
+            sess = srv.sessions[-1] if srv.sessions else None
+            if first[0] != "connected" or sess is None or len(sess.sent) < 2:
+                out["result"] = ("setup_failed",)
+                return
+            srv.replay = [sess.sent[0], sess.sent[1]]
+            out["result"] = await login(plan["password"])
+        else:
+            new_pw = plan["password"] + "-new"
+            # same user, same salt and iteration count, new password
+            srv.users = {plan["user"]: new_pw if plan["behaviour"] == "rotate_honest" else plan["password"]}
+            out["result"] = await login(new_pw)
+        if out["result"][0] == "raised":
+            out["failed_at"] = world.now()
+            await asyncio.sleep(0.2)
+
+    sequence = plan["behaviour"] in ("replay", "rotate_honest", "rotate_stale")
+    res = scenario.run(plan, world, main_sequence if sequence else main)
     res["nontrivial"] = True
+    if res["status"] == "ok" and sequence:
+        got = out.get("result", ("none",))
+        first = out.get("first", ("none",))
+        data = {"behaviour": plan["behaviour"], "first": list(first), "second": list(got),
+                "user": plan["user"], "mechanism": plan["mechanism"]}
+        if first[0] != "connected":
+            world.violation(PROP, "honest_login_rejected", data)
+        elif plan["behaviour"] == "rotate_honest":
+            if got[0] != "connected":
+                world.violation(PROP, "honest_login_rejected_after_password_change", data)
+        elif got[0] == "connected":
+            world.violation(PROP, "login_completed_with_untrusted_server", data)
+        world.probe(f"behaviour_{plan['behaviour']}")
+        scenario.finish(res, world, (plan["behaviour"], plan["mechanism"], plan["user"], plan["password"]))
+        return res
     if res["status"] == "ok":
         should = plan["behaviour"] == "honest"
         got = out.get("result", ("none",))
